@@ -1261,3 +1261,90 @@ def timeout_while_written_family(report, prop="C18", label="timeout-of-operation
     report.obligation("corr:" + label, "correspondence", ok, f"{len(scripts)} scripted connections, every response compared")
     report.obligation("mon:" + label, "monitor", mon and judged > 0, f"{judged} histories in which the deadline passes while the PUBREL is seated: AckTimeout is delivered by the first service after the PUBREL is out, never before the deadline")
     return ok and mon
+
+
+def inbound_qos2_sessions_family(report, prop="C05", label="inbound-qos2-across-sessions"):
+    """an inbound QoS 2 identifier that is still unreleased when the connection ends: on a resumed session the server's repeat is
+    acknowledged and not delivered again; when the CONNACK says the session is gone, the identifier is forgotten and a PUBLISH
+    that uses it is a new message; after a PUBREL it is a new message in any case.  Every rejoin policy, both versions."""
+    from gv import harness_batch, resp_fields
+    scripts = []
+    for v in ("5", "311"):
+        p5 = "00" if v == "5" else ""
+        pub = lambda pid, pl: "x" + bytes([0x34, 7 + (1 if v == "5" else 0) + 1, 0, 3]).hex() + "612f62" + f"{pid:04x}" + p5 + f"{pl:02x}"
+        rel = lambda pid: f"x6202{pid:04x}"
+        for rejoin in ("always", "post", "never"):
+            for sp2 in (1, 0):
+                for released in (False, True):
+                    for sp3 in (None, 1, 0):
+                        connack = lambda sp: ("x2002%02x00" % sp) if v == "311" else ("x2003%02x0000" % sp)
+                        sc = [f"eng.new v={v} policy=all drain=none pingto=0 resolver=none rmax=2 | ka=0 cid=x63 rejoin={rejoin}",
+                              "eng.open t=0 deadline=30000", "eng.svc t=0 cap=4096 prefill=0", "eng.wc t=0", f"eng.data t=0 b={connack(0)}",
+                              f"eng.data t=1 b={pub(7, 1)}", "eng.svc t=1 cap=4096 prefill=0", "eng.wc t=1"]
+                        if released:
+                            sc += [f"eng.data t=2 b={rel(7)}", "eng.svc t=2 cap=4096 prefill=0", "eng.wc t=2"]
+                        conns = [sp2] + ([sp3] if sp3 is not None else [])
+                        t = 3
+                        for sp in conns:
+                            sc += [f"eng.close t={t}", f"eng.open t={t} deadline=90000", f"eng.svc t={t} cap=4096 prefill=0", f"eng.wc t={t}", f"eng.data t={t} b={connack(sp)}",
+                                   f"eng.data t={t} b={pub(7, 2 + t)}", f"eng.svc t={t} cap=4096 prefill=0", f"eng.wc t={t}"]
+                            t += 1
+                        scripts.append((sc, v, rejoin, conns, released))
+    reqs, starts = [], []
+    for sc, *_ in scripts:
+        starts.append(len(reqs))
+        reqs.append("session.reset")
+        reqs += sc
+    impl = harness_batch(reqs)
+    model = driver_batch(reqs)
+    ok, mon, bad, mbad, judged = True, True, 0, 0, 0
+    for k, st in enumerate(starts):
+        end = starts[k + 1] if k + 1 < len(starts) else len(reqs)
+        sc, v, rejoin, conns, released = scripts[k]
+        report.case("|".join(reqs[st + 1:end]))
+        report.traces_validated += 1
+        for i in range(st, end):
+            if canon(impl[i]) != canon(model[i]):
+                ok = False
+                if bad < 4:
+                    report.add_finding(Finding(prop, "corr:" + label, {"clause": "model-vs-impl", "verb": reqs[i].split(" ")[0]},
+                                               "inbound QoS 2 across sessions: implementation and model disagree", reqs[st + 1:i + 1] + ["# impl:  " + impl[i][:300], "# model: " + model[i][:300]], has_input=False))
+                bad += 1
+                break
+        # reference: the set of unreleased identifiers, cleared when a CONNACK reports no session
+        unreleased, conn = set(), 0
+        for i in range(st, end):
+            q = reqs[i]
+            if not q.startswith("eng.data"):
+                continue
+            b = q.split(" b=x")[1]
+            f, segs = resp_fields(impl[i])
+            if b.startswith("20"):
+                conn += 1
+                sp = int(b[4:6], 16) & 1
+                # a clean-start CONNECT cannot be answered with session present (a conformant server): skip what follows if refused
+                if f.get("res") != "ok":
+                    break
+                if not sp:
+                    unreleased = set()
+            elif b.startswith("62"):
+                unreleased.discard(7)
+            elif b.startswith("34"):
+                surfaced = any(x.startswith("publish") for x in segs)
+                expect = 7 not in unreleased
+                unreleased.add(7)
+                judged += 1
+                if f.get("res") != "ok" or surfaced != expect:
+                    mon = False
+                    if mbad < 6:
+                        what = ("is a new message and must be surfaced" if expect else "repeats an unreleased delivery of a resumed session and must not be surfaced again")
+                        report.add_finding(Finding(prop, "mon:" + label, {"clause": "qos2-surfaced-wrongly", "expected": expect},
+                                                   f"connection {conn}: the QoS 2 PUBLISH with identifier 7 {what}; the engine answered {f.get('res')} and {'surfaced' if surfaced else 'did not surface'} it",
+                                                   reqs[st + 1:i + 1] + ["# impl: " + impl[i][:200]]))
+                    mbad += 1
+                    break
+    report.count(label + ".scenarios", len(scripts))
+    report.count(label + ".judged", judged)
+    report.obligation("corr:" + label, "correspondence", ok, f"{len(scripts)} scripted histories, every response compared")
+    report.obligation("mon:" + label, "monitor", mon and judged > 0, f"{judged} inbound QoS 2 publishes judged against the set of unreleased identifiers (forgotten exactly when a CONNACK reports no session)")
+    return ok and mon
